@@ -133,10 +133,40 @@ def pass_through(rng):
     return "function outer() { %s %s }\nlog(%s); log(%s);\n'done'" % (decl, body, call, call)
 
 
+def key_order_program(rng):
+    """Objects with many string keys built and rebuilt by every mechanism that touches the key tables (literal, assignment, delete and
+    re-add, accessors by literal and defineProperty, accessor <-> data conversion, assign, create with a property map, JSON.parse,
+    defineProperties), then every enumeration of them: any order taken from a host set or dict of strings varies with the hash seed."""
+    pool = rng.choice(NAME_POOLS + [["alpha", "beta", "gamma", "delta", "epsilon", "zeta", "eta", "theta", "iota", "kappa", "lambda", "mu"]])
+    keys = rng.sample(pool, min(len(pool), rng.randint(4, 8)))
+    lines = ["var o = {%s};" % ", ".join("%s: %d" % (k, i) for i, k in enumerate(keys[:3]))]
+    for i, k in enumerate(keys[3:]):
+        lines.append("o.%s = %d;" % (k, i + 3))
+    ops = ["delete o.K; o.K = 'again';", "Object.defineProperty(o, 'K', {get: function () { return 'g'; }, enumerable: true, configurable: true});",
+           "Object.defineProperty(o, 'K', {value: 'data', writable: true, enumerable: true, configurable: true});", "Object.assign(o, {K: 'as', extra: 1});", "delete o.K;",
+           "Object.defineProperties(o, {K: {value: 'dps', writable: true, enumerable: true, configurable: true}, K2: {value: 'dps2', writable: true, enumerable: true, configurable: true}});",
+           "o = Object.assign({}, o);", "o = JSON.parse(JSON.stringify(o));", "o = Object.create(Object.prototype, {K: {value: 1, enumerable: true, writable: true, configurable: true}, K2: {get: function () { return 2; }, enumerable: true, configurable: true}});",
+           "var o2 = {get K() { return 1; }, set K(v) { }, K2: 2}; Object.defineProperty(o2, 'K', {value: 'was-accessor', writable: true, enumerable: true, configurable: true}); log(Object.keys(o2), JSON.stringify(o2));",
+           "o = Object.fromEntries ? Object.fromEntries(Object.entries(o)) : o;", "for (var q in o) { if (q === 'K') { delete o[q]; } }", "o.K = {K2: 1, K: 2};"]
+    for _ in range(rng.randint(2, 6)):
+        op = rng.choice(ops)
+        lines.append("try { " + op.replace("K2", rng.choice(keys)).replace("K", rng.choice(keys)) + " } catch (e) { log('threw', e.name); }")
+        if rng.random() < 0.4:
+            lines.append("log(Object.keys(o));")
+    lines.append("var fi = []; for (var k in o) { fi.push(k); } log(Object.keys(o), fi, JSON.stringify(o), Object.values(o).length, Object.entries(o).map(function (e) { return e[0]; }), Object.keys(Object.assign({}, o)));")
+    lines.append("o;")
+    return "\n".join(lines)
+
+
 def main(ctx):
     rng = random.Random(ctx.seed)
     fixed = random.Random(4242)
     progs = []
+    for i in range(150 if ctx.quick else 3000):
+        progs.append(key_order_program(fixed if i % 2 == 0 else rng))
+    from checks import C08 as _c08
+    for i in range(40 if ctx.quick else 600):
+        progs.append(_c08.history(fixed if i % 2 == 0 else rng, 10, avoid=("fn-receiver",)))
     for i in range(150 if ctx.quick else 2000):
         progs.append(pass_through(fixed if i % 2 == 0 else rng))
     # one small program per key / operand spelling: values that are equal for the host (True == 1 == 1.0, False == 0 == -0.0, '1' vs 1)
